@@ -234,9 +234,9 @@ func (c *Ctx) c19Rules() {
 			// entry back to the loop header avoids it
 			cb := call.Block()
 			var header *ssa.BasicBlock
-			for d := cb.Idom(); d != nil; d = d.Idom() {
+			for d := Idom(cb); d != nil; d = Idom(d) {
 				for _, p := range d.Preds {
-					if d.Dominates(p) && len(d.Succs) == 2 {
+					if Dominates(d, p) && len(d.Succs) == 2 {
 						header = d
 					}
 				}
